@@ -34,6 +34,7 @@ type Scenario struct {
 	Check  func(tr *mc.Trace) []Violation
 	P, F   int // preemption / fault bounds
 	D      int // delay bound: any non-default scheduling choice costs one delay (0 = unbounded, i.e. classic preemption bounding; <0 = default schedule only)
+	S      int // bound on non-default select choices (which ready case of a select is taken) per execution; 0 = unbounded
 	Cfg    mc.Config
 	MaxExe int64                    // execution cap for this scenario (0 = none); hitting it makes the run non-exhaustive
 	Cases  func(tr *mc.Trace) int64 // optional: input cases enumerated inside one execution (for the evidence)
@@ -61,6 +62,8 @@ type Stats struct {
 	NOutcomes   int            `json:"distinct_outcomes"`
 	P           int            `json:"preemption_bound"`
 	F           int            `json:"fault_bound"`
+	D           int            `json:"delay_bound"`                      // 0 = unbounded, <0 = default schedule only
+	S           int            `json:"select_deviation_bound,omitempty"` // 0 = unbounded
 	MaxPre      int            `json:"max_preemptions_used"`
 	MaxFault    int            `json:"max_faults_used"`
 	Exhaustive  bool           `json:"exhaustive"`
@@ -81,7 +84,7 @@ type Stats struct {
 }
 
 func newStats(sc *Scenario) *Stats {
-	return &Stats{Scenario: sc.Name, P: sc.P, F: sc.F, Outcomes: map[uint64]int{}, ClassCount: map[string]int{}, Reasons: map[string]int{}, Exhaustive: true}
+	return &Stats{Scenario: sc.Name, P: sc.P, F: sc.F, D: sc.D, S: sc.S, Outcomes: map[uint64]int{}, ClassCount: map[string]int{}, Reasons: map[string]int{}, Exhaustive: true}
 }
 
 func cost(points []mc.Point, upto int) (pre, faults int) {
@@ -193,6 +196,12 @@ func children(sc *Scenario, tr *mc.Trace, prefixLen int) [][]int {
 	var out [][]int
 	ch := choices(tr.Points)
 	pre, dl, fl := cost3(tr.Points, prefixLen)
+	sel := 0
+	for j := 0; j < prefixLen && j < len(tr.Points); j++ {
+		if tr.Points[j].Kind == 1 && tr.Points[j].Chosen > 0 {
+			sel++
+		}
+	}
 	for i := prefixLen; i < len(tr.Points); i++ {
 		p := tr.Points[i]
 		if i > prefixLen && tr.Points[i-1].Chosen > 0 {
@@ -210,6 +219,9 @@ func children(sc *Scenario, tr *mc.Trace, prefixLen int) [][]int {
 				nf++
 			}
 			if np > sc.P || nf > sc.F || (sc.D > 0 && nd > sc.D) || (sc.D < 0 && p.Kind == 0) {
+				continue
+			}
+			if p.Kind == 1 && sc.S > 0 && sel+1 > sc.S {
 				continue
 			}
 			c := make([]int, i+1)
